@@ -82,7 +82,10 @@ func runC17(w *World, r *Report) {
 				ok = isPhi
 				if isPhi {
 					isErr := func(cs []Cond) bool {
-						op, _ := FindRel(relsOfConds(cs), func(v ssa.Value) bool { e, ok := v.(*ssa.Extract); return ok && e.Tuple == gets[0].Value() && e.Index == 1 }, isNilConst)
+						op, _ := FindRel(relsOfConds(cs), func(v ssa.Value) bool {
+							e, ok := v.(*ssa.Extract)
+							return ok && e.Tuple == gets[0].Value() && e.Index == 1
+						}, isNilConst)
 						return op == "!="
 					}
 					y, n := phiEdgesWhere(ph, isErr)
@@ -152,7 +155,10 @@ func runC17(w *World, r *Report) {
 			okKeys := isSeq(margs(gets[0])[0]) && isSeq(margs(sets[0])[0]) && isSeq(margs(dels[0])[0]) && isSeq(margs(dels[1])[0])
 			r.Check(okKeys, "R2", "OnResponse/state-keyed-by-sequence", posOf(gets[0]), "retry state is read, written and deleted under onResponse.SequenceID (Get %s, Set %s)", trunc(Path(margs(gets[0])[0]), 40), trunc(Path(margs(sets[0])[0]), 40))
 			found := func(pol bool) VP {
-				return func(v ssa.Value) bool { e, ok := v.(*ssa.Extract); return ok && e.Tuple == gets[0].Value() && e.Index == 1 }
+				return func(v ssa.Value) bool {
+					e, ok := v.(*ssa.Extract)
+					return ok && e.Tuple == gets[0].Value() && e.Index == 1
+				}
 			}
 			nMod := 0
 			var loopDel, tailDel ssa.CallInstruction
